@@ -405,8 +405,8 @@ def nested_moves(rep, prop='C09'):
             counts = [now.get_path(('count', 'n')).value]
         else:
             counts = [now.get_path((k, 'count', 'n')).value for k in ('y', 'z')]
-        # (the update of the moved process due in the tick of the move may be dropped)
-        if any(c not in (2, 3) for c in counts):
+        # (the update of the moved process that is due in the tick of the move arrives too)
+        if any(c != 3 for c in counts):
             problems.append('the moved process(es) counted %r in 3 ticks' % (counts,))
         want = {('B',) + source + (('tick',) if len(source) == 2 else (k, 'tick'))
                 for k in ('y', 'z')} if len(source) == 1 else {('B', 'x', 'y', 'tick')}
@@ -440,8 +440,8 @@ def check(prop, tier, seed):
                 'the set of children seen through a glob port (C07)')
     rep.assumptions = ['all timesteps are 1 and the director is listed first (its update is '
                        'applied first); compartments use the set divider for x',
-                       'an update of a moved process due in the tick of the move is not '
-                       'applied (as the scheduler specification allows)']
+                       'the update of a process whose compartment another update of the same '
+                       'tick moves arrives at the compartment in its new place']
     with tlc.Scratch() as scratch:
         model_check(rep, prop, tier, scratch)
         validate(rep, prop, histories(tier, seed), scratch)
